@@ -26,6 +26,9 @@ SPEC = dict(
          '(valid or failing) + initializeCurves/initializeFans; the chip exposes tempN_input and none / max / min / crit / max+min(+crit) attributes, optional label, '
          'and a decoy temp feature with its own range before or after the configured index; readings lie below / inside / above the advertised range with constant '
          'runs; then every sensor is polled through the real updateSensor and judged like a direct case (the model is unchanged: the value is what the file says). '
+         'Every call into the real code (initializeSensors / InitializeObjects, updateSensor, GetMovingAvg read-backs, the monitor loop) runs under a watchdog '
+         '(2 s; 6 s for command sensors; monitor loop: no poll for 3 s): a call that does not return is the observation hung (o_ok = false: mismatch and observer '
+         'failure), the case ends there and a stream stops after 3 hung cases. '
          'Non-trivial = at least two distinct averages in the observed sequence; distinct = distinct Coq case terms.',
     assumptions=[
         'reading classes: strconv.Atoi / strconv.ParseFloat / os.ReadFile / os/exec are not modelled; the model starts from the class '
